@@ -1,7 +1,7 @@
 """Scripted sockets for byte-level correspondence runs."""
 
 
-class WouldBlock(Exception):
+class WouldBlock(BaseException):
     """The scripted peer has nothing more to give: the real code would block here."""
 
 
